@@ -261,6 +261,11 @@ FaultDocs ==
   \cup { Doc1(<<FS("", top, <<F("", "name"), F("w", "wrong"), F("", "flags")>>), F("", "title")>>) : top \in {"a", "items", "matrix"} }
   \cup { Doc1(<<FS("", top, <<F("g", "nest"), F("", "n")>>), F("", "title")>>) : top \in {"a", "items"} }
   \cup { Doc1(<<FS("", "a", <<FS("", "peer", <<FS("", "peer", <<F("", "boom"), FS("s", "self", <<F("", "name")>>)>>)>>)>>)>>) }
+  \* one response key selected twice (written twice, through an inline fragment, through a spread): what fails below the
+  \* later occurrence is reported like what fails below the first
+  \cup { Doc1(<<FS("", top, <<F("", "name")>>), FS("", top, <<F("", "boom"), F("w", "wrong")>>)>>) : top \in {"a", "items"} }
+  \cup { Doc1(<<FS("", "a", <<F("", "n")>>), Inl("Query", <<FS("", "a", <<F("", "many"), FS("", "self", <<F("", "boom")>>)>>)>>)>>) }
+  \cup { DocF(<<FS("", "items", <<F("", "name")>>), Spr("F")>>, <<Frg("F", "Query", <<FS("", "items", <<F("h", "half"), F("", "flags")>>)>>)>>) }
 CallSites(doc) == LET r == Response(UExec, doc, "", NoVars, {}) IN { <<r.calls[i].node, r.calls[i].field>> : i \in DOMAIN r.calls }
 FamFaults1 == { Case("fault1", d, "", NoVars, {site}) : <<d, site>> \in UNION { {d} \X CallSites(d) : d \in FaultDocs } }
 \* list accessor failures: every index of every list a request walks, alone and together with each resolver failure
@@ -366,7 +371,12 @@ FamForms ==
       <<FS("", top, <<Inl("Solo", <<TN>>), F("x", "say")>>), FS("", "pv", <<F("", "n")>>)>>,
       \* fields promoted from embedded structs and a method with a pointer receiver, value first and pointer first
       <<FS("", "pv", <<F("", "stamp"), F("", "rank")>>), FS("", top, <<Inl("P", <<F("", "stamp"), F("", "code")>>), F("", "name")>>)>>,
-      <<FS("", top, <<Inl("P", <<F("", "code"), F("", "rank")>>)>>), FS("", "pv", <<F("", "code"), F("", "stamp")>>)>> } : top \in {"pp", "ps"} } }
+      <<FS("", top, <<Inl("P", <<F("", "code"), F("", "rank")>>)>>), FS("", "pv", <<F("", "code"), F("", "stamp")>>)>>,
+      \* a union the object is no member of (and one it is a member of) as conditions
+      <<FS("", top, <<Inl("Any", <<F("", "name")>>), TN, Inl("Solo", <<F("s", "name")>>)>>)>>,
+      \* a struct field behind a field with a required argument: given and left out
+      <<FS("", "pv", <<FA("", "note", <<Arg("k", StrV("x"))>>)>>), FS("", top, <<Inl("P", <<F("", "note"), F("", "rank")>>), F("", "name")>>)>>,
+      <<FS("", "pv", <<F("", "note"), F("", "name")>>), FS("", top, <<Inl("P", <<FA("", "note", <<Arg("k", StrV("y"))>>)>>), TN>>)>> } : top \in {"pp", "ps"} } }
   \* the query root behind a field of the interface it implements
   \cup { Plain("forms", s) : s \in {
       <<FS("", "me", <<TN, Inl("Query", <<F("", "title")>>), F("t2", "title")>>)>>,
